@@ -13,3 +13,11 @@ func TestC14Ctx(t *testing.T) {
 		count("runs", 1)
 	})
 }
+
+// TestC14Exec — scenarios S1–S3: shared templates, shared parent, cache.
+func TestC14Exec(t *testing.T) {
+	runBatches(t, "c14exec", func(t *rapid.T) {
+		c14ExecRun(t)
+		count("runs", 1)
+	})
+}
